@@ -256,7 +256,8 @@ def task_list(tier):
             tasks.append((st, method, nt, opts, 2, 2, 1, 1, None))      # cross-channel / cross-component terms (affine f, g)
         else:
             tasks.append((st, method, nt, opts, 1, (2 if nt in ('additive', 'general') else 1), 1, 3, None))
-            tasks.append((st, method, nt, opts, 2, 2, 1, 2, None))
+            # SRK with state-dependent diffusion at d=2 and quadratic f,g runs a worker out of memory: affine there
+            tasks.append((st, method, nt, opts, 2, 2, 1, 1 if heavy else 2, None))
     return tasks
 
 
@@ -299,7 +300,7 @@ def run(ctx):
            'ForwardSDE.f_and_g_prod / g_prod / prod / g_prod_and_gdg_prod_* / dg_ga_jvp_column_sum_v1',
            'misc.vjp', 'misc.jvp', 'tableaus.srid2', 'tableaus.sra1')
     ctx.stubs.append('Brownian motion -> stub returning symbols (dW, U, A=Ax-Ax^T) for the single queried interval')
-    ctx.bounds = {'state/noise dims': 'd=1 generic + d=2,m=2 affine (quick); d<=2, m<=2 degree (1,2) (thorough)', 'degree of generic f,g in (t,y)': '(1,3); SRK diagonal/scalar (1,2) in quick',
+    ctx.bounds = {'state/noise dims': 'd=1 generic + d=2,m=2 affine (quick); d<=2, m<=2 degree (1,2) (thorough; SRK diagonal/scalar affine at d=2)', 'degree of generic f,g in (t,y)': '(1,3); SRK diagonal/scalar (1,2) in quick',
                   'series grade': '2p identically, 2p+1 in expectation', 'steps': 1}
     ctx.assumptions += ['PyTorch ATen op semantics as modelled by the per-op handlers (validated against the real kernels at the base point on every run)',
                         'stochastic Taylor expansion (Kloeden-Platen ch.5) as implemented in vt/taylor.py',
